@@ -245,4 +245,136 @@ def demuxFuel : Nat → Bytes → R Demux
 /-- reading `streamReader` to the end over the responder's bytes `inp` -/
 def demux (inp : Bytes) : R Demux := demuxFuel (inp.length + 1) inp
 
+/-! ### the response: `FCGIClient.Request` on the demultiplexed stdout stream
+
+`textproto.Reader.ReadMIMEHeader` belongs to the standard library; it is modelled for the
+header blocks a CGI program writes: lines `Name: value` ended by LF or CRLF, names made of
+token characters, values of printable ASCII, a blank line, then the body.  Everything else
+(continuation lines, control bytes, missing blank line, chunked transfer encoding, Status values
+that are not plain digits) is reported as `unmodelled`, and the harness does not generate it
+for the compared streams. -/
+
+structure Resp where
+  status     : Nat
+  statusText : Bytes                    -- resp.Status (text after the first space), may be empty
+  headers    : List (Bytes × Bytes)     -- canonical key, value; in order of appearance
+  body       : Bytes
+deriving Repr, DecidableEq
+
+inductive RespResult where
+  | resp (r : Resp)
+  | statusError           -- strconv.Atoi on the Status header failed: Request returns the error
+  | unmodelled
+deriving Repr, DecidableEq
+
+def isTokenByte (b : UInt8) : Bool :=
+  (0x30 ≤ b && b ≤ 0x39) || (0x41 ≤ b && b ≤ 0x5a) || (0x61 ≤ b && b ≤ 0x7a) ||
+  "!#$%&'*+-.^_`|~".toList.any (fun c => c.toNat.toUInt8 == b)
+
+def upper (b : UInt8) : UInt8 := if 0x61 ≤ b && b ≤ 0x7a then b - 32 else b
+def lower (b : UInt8) : UInt8 := if 0x41 ≤ b && b ≤ 0x5a then b + 32 else b
+
+/-- `textproto.CanonicalMIMEHeaderKey` on a token -/
+def canonicalKey : Bytes → Bool → Bytes
+  | [], _ => []
+  | b :: rest, up => (if up then upper b else lower b) :: canonicalKey rest (b == 0x2d)
+
+def trimSpTab (s : Bytes) : Bytes :=
+  let l := s.dropWhile (fun b => b == 0x20 || b == 0x09)
+  (l.reverse.dropWhile (fun b => b == 0x20 || b == 0x09)).reverse
+
+/-- first line (without its LF / CRLF) and the rest; `none` = no LF -/
+def cutLine (s : Bytes) : Option (Bytes × Bytes) :=
+  match indexOf s [0x0a] with
+  | none => none
+  | some i =>
+    let line := s.take i
+    let line := if line.getLast? == some 0x0d then line.dropLast else line
+    some (line, s.drop (i + 1))
+
+/-- header lines up to the blank line; `none` = outside the modelled grammar -/
+def parseHeaders : Nat → Bytes → Option (List (Bytes × Bytes) × Bytes)
+  | 0, _ => none
+  | fuel + 1, s =>
+    match cutLine s with
+    | none => none
+    | some (line, rest) =>
+      if line.isEmpty then some ([], rest) else
+      if line.head? == some 0x20 || line.head? == some 0x09 then none else
+      match indexOf line [0x3a] with
+      | none => none
+      | some i =>
+        let name := line.take i
+        let value := trimSpTab (line.drop (i + 1))
+        if name.isEmpty || !name.all isTokenByte then none
+        else if !value.all (fun b => 0x20 ≤ b && b ≤ 0x7e) then none
+        else
+          match parseHeaders fuel rest with
+          | none => none
+          | some (hs, body) => some ((canonicalKey name true, value) :: hs, body)
+
+def isDigitB (b : UInt8) : Bool := 0x30 ≤ b && b ≤ 0x39
+
+/-- `resp.Header.Get("Status")` handling of `Request` -/
+def parseResponse (stdout : Bytes) : RespResult :=
+  match parseHeaders (stdout.length + 1) stdout with
+  | none => .unmodelled
+  | some (hs, body) =>
+    if hs.any (fun h => h.1 == bytes "Transfer-Encoding") then .unmodelled else
+    match hs.find? (fun h => h.1 == bytes "Status") with
+    | none => .resp { status := 200, statusText := [], headers := hs, body := body }
+    | some (_, v) =>
+      if v.isEmpty then .resp { status := 200, statusText := [], headers := hs, body := body } else
+      let parts := splitFirst 0x20 v
+      let code := parts.headD []
+      let text := if parts.length > 1 then (parts.drop 1).headD [] else []
+      if code.isEmpty then .statusError
+      else if code.all isDigitB && code.length ≤ 9 then
+        .resp { status := code.foldl (fun a d => a * 10 + (d.toNat - 0x30)) 0, statusText := text,
+                headers := hs, body := body }
+      else if code.any (fun b => !isDigitB b && b != 0x2b && b != 0x2d) then .statusError
+      else .unmodelled
+
+/-- stable insertion by key (what printing a Go `http.Header` with sorted keys gives) -/
+def insertHeader (h : Bytes × Bytes) : List (Bytes × Bytes) → List (Bytes × Bytes)
+  | [] => [h]
+  | x :: rest => if bytesLtF h.1 x.1 then h :: x :: rest else x :: insertHeader h rest
+where
+  bytesLtF : Bytes → Bytes → Bool
+    | [], [] => false
+    | [], _ :: _ => true
+    | _ :: _, [] => false
+    | a :: as, b :: bs => a < b || (a == b && bytesLtF as bs)
+
+def sortHeaders (hs : List (Bytes × Bytes)) : List (Bytes × Bytes) :=
+  hs.foldl (fun acc h => insertHeader h acc) []
+
+/-- What the caller of `Request` ends up with after reading the body to its end. -/
+structure ClientView where
+  status     : Nat
+  statusText : Bytes
+  headers    : List (Bytes × Bytes)   -- sorted by key, values of one key in order of arrival
+  body       : Bytes
+  stderr     : Bytes                  -- what went to `c.stderr` (the error log)
+  fin        : ReadErr                -- how the body stream ended (`eof` = cleanly)
+deriving Repr, DecidableEq
+
+inductive ViewResult where
+  | view (v : ClientView)
+  | statusError
+  | unmodelled
+deriving Repr, DecidableEq
+
+/-- `Request` + reading `resp.Body` to the end, over the responder's bytes `raw` -/
+def clientView (raw : Bytes) : R ViewResult :=
+  match demux raw with
+  | .error e => .error e
+  | .ok d =>
+    match parseResponse d.out.flatten with
+    | .unmodelled => .ok .unmodelled
+    | .statusError => .ok .statusError
+    | .resp r =>
+      .ok (.view { status := r.status, statusText := r.statusText, headers := sortHeaders r.headers,
+                   body := r.body, stderr := d.err, fin := d.fin })
+
 end Casket.FCGI
